@@ -111,6 +111,8 @@ Viol(ev) ==
      [] ev.e = "XorEq" -> XorEqViol(ev)
      [] ev.e = "XorEqBad" -> {"C05 a parity is neither zero nor a copy of the unit data fragment"}
      [] ev.e = "CreateBox" -> CreateBoxViol(ev)
+     [] ev.e = "ShortLen" -> (IF ev.drc >= 0 \/ ev.rrc >= 0 THEN {"C13 fragment length shorter than a header accepted"} ELSE {})
+                             \cup (IF ev.l1 # ev.l0 THEN {"C16 refused short fragment length changed the live block count"} ELSE {})
      [] ev.e = "Fault" -> {"fault: " \o ev.how}
      [] ev.e = "Create" -> IF ev.rc <= 0 /\ (~Has(ev, "wnat") \/ ev.wnat = 1) THEN {"create failed in a sweep"} ELSE {}
      [] ev.e = "Enc" -> IF ev.rc # 0 THEN {"encode failed in a sweep"} ELSE {}
